@@ -291,11 +291,16 @@ type clientResult struct {
 
 // doRequest sends one request and classifies the answer against the request's OWN oracle.
 func (w *srvWorld) doRequest(addr, id string, b *builtReq, others []*builtReq) clientResult {
-	tr := &http.Transport{DisableKeepAlives: true}
+	tr := &http.Transport{DisableKeepAlives: true, ExpectContinueTimeout: 10 * time.Second}
 	cl := &http.Client{Transport: tr, Timeout: 120 * time.Second}
 	rq, err := http.NewRequest(b.kind.Method, "http://"+addr+"/prove", bytes.NewReader(b.body))
 	if err != nil {
 		return clientResult{Done: true, Err: err.Error()}
+	}
+	if len(b.body) > 1<<20 {
+		// large uploads announce themselves: whatever the server answers (100 Continue and then a verdict, or an early verdict),
+		// the client receives that answer instead of a broken pipe
+		rq.Header.Set("Expect", "100-continue")
 	}
 	rq.Header.Set("X-Verif-Req", id)
 	rq.Header.Set("Content-Type", "application/json")
